@@ -487,7 +487,10 @@ func runChain(t *testing.T, run *vh.Run, r *vh.Rand, c *Case, exhaustiveLimit in
 			t.Fatal(err)
 		}
 		if err := runUnderStrace(specPath, logPath); err != nil {
-			t.Fatalf("step %d: %v", si, err)
+			if !driverFailure(run, err, Case{Kind: "run", Store: store, InitN: c.InitN, InitS: c.InitS, InitPresent: c.InitPresent, Steps: c.Steps[:si+1]}) {
+				t.Fatalf("step %d: %v", si, err)
+			}
+			return
 		}
 		ops, realNames, err := parseStrace(logPath, dir, target, true)
 		if err != nil {
@@ -579,6 +582,27 @@ func runChain(t *testing.T, run *vh.Run, r *vh.Rand, c *Case, exhaustiveLimit in
 	}
 }
 
+// driverFailure: the real store refused to start from its own snapshot, or refused a well-formed gossip message, in
+// the driver process: a judged outcome, not a harness error. false = something else went wrong.
+func driverFailure(run *vh.Run, err error, c Case) bool {
+	msg := err.Error()
+	if i := strings.Index(msg, "driver_test.go"); i >= 0 {
+		msg = msg[i:]
+	}
+	if len(msg) > 300 {
+		msg = msg[:300]
+	}
+	switch {
+	case strings.Contains(msg, ".New: "):
+		run.Violate("own-snapshot-refused", storeName(c.Store)+": the restart from the snapshot written at the previous shutdown fails: "+msg, c)
+	case strings.Contains(msg, "Merge: "):
+		run.Violate("valid-gossip-message-refused", storeName(c.Store)+": Merge refuses a well-formed message: "+msg, c)
+	default:
+		return false
+	}
+	return true
+}
+
 func genChain(r *vh.Rand, store int, sizes []int, initN int, tick bool) Case {
 	c := Case{Kind: "run", Store: store}
 	id := 0
@@ -638,6 +662,8 @@ func runOne(t *testing.T, run *vh.Run, r *vh.Rand, c *Case, exhaustiveLimit int)
 		sizeCase(t, run, c, false)
 	case "bare":
 		bareCase(t, run, r, c)
+	case "fault":
+		faultCase(t, run, r, c)
 	case "limits":
 		limitsCase(t, run, c)
 	case "conc":
@@ -703,6 +729,11 @@ func TestCheck(t *testing.T) {
 		for _, st := range []int{storeSilence, storeNflog} {
 			c := genBare(r.Fork(), st)
 			bareCase(t, run, r.Fork(), &c)
+		}
+		// fsync of the temporary file fails (injected): the old snapshot must stay
+		for _, st := range []int{storeNflog, storeSilence} {
+			c := genFault(r.Fork(), st)
+			faultCase(t, run, r.Fork(), &c)
 		}
 		// crash CHAINS: an interrupted snapshot of a large state (temp files left behind under their real names), then a
 		// completed snapshot of a smaller state in the same directory, then restart
